@@ -16,7 +16,7 @@ def make_replay(pid, failure, outdir):
     found = False
     try:
         unit = __import__(failure.get("unit", ""))
-        if hasattr(unit, "replay"):
+        if hasattr(unit, "replay") and not os.environ.get("VERIF_NO_REPLAY"):
             r = unit.replay(failure)
             if r:
                 doc.update(r)
